@@ -114,6 +114,12 @@ def config_case(draw, tier):
         b = draw(st.sampled_from([(0, 1), (0, 1), (0, 1), (0, 2), (-1, 1), (1, 1), (0, 3)]))
         vars_.append([v, b[0], b[1]])
     m = [[draw(st.integers(-3, 2))] + [draw(st.sampled_from([0, 0, 1, 1, -1, -1, 2, -2])) for _ in range(ncols)] for _ in range(nrows)]
+    if draw(st.integers(0, 2)) == 0:
+        # entries at the ends of the fixed-width integer types (a "pack it smaller" step would wrap exactly there)
+        for _ in range(draw(st.integers(1, 3))):
+            r_, c_ = draw(st.integers(0, nrows - 1)), draw(st.integers(0, ncols))
+            m[r_][c_] = draw(st.sampled_from([127, 128, 129, -128, -129, 255, 256, 32767, 32768, -32768, -32769, 65535, 65536,
+                                              2 ** 31 - 1, 2 ** 31, -(2 ** 31), 2 ** 31 + 1, 2 ** 40]))
     index = draw(st.one_of(st.none(), st.just(["r%d" % (7 - i) for i in range(nrows)]), st.just(list(range(10, 10 + nrows)))))
     dpv = draw(st.one_of(st.none(), st.lists(st.sampled_from([-1, -1, -2, -3, 0]), min_size=ncols, max_size=ncols)))
     return {"from": "matrix", "m": m, "vars": vars_, "index": index, "dpv": dpv, "prios": _prios(draw, vids + ["zz"])}
